@@ -18,7 +18,7 @@ import (
 var rec = vh.NewRecorder("C16", "close-propagation",
 	"histories of 1-20 bridged connections through the tcp-bridge-frontend/-backend binaries, each with a closer (client or server), byte "+
 		"counts in both directions (0..200000), a close mode {clean: the closer has read everything sent to it and the far side is quiescent, "+
-		"then writes its data and closes at once; dirty: the closer closes while the far side is still writing towards it; dirty-quiet: the closer closes with unread input (so its close is a reset) while the far side stays silent; both: both ends "+
+		"then writes its data and closes at once; dirty: the closer closes while the far side is still writing towards it; dirty-quiet: the closer closes with unread input (so its close is a reset) while the far side stays silent; target-down: the bridge's target port is closed; both: both ends "+
 		"close at nearly the same time} and start offsets; oracle: the far peer observes end-of-stream (EOF or reset) within 5 s of the "+
 		"close, for clean closes after reading exactly the bytes sent before it, and the file-descriptor count of both bridge processes "+
 		"returns to its baseline once all endpoints are closed (nothing outlives both endpoints); non-trivial = a clean close preceded by "+
@@ -28,7 +28,7 @@ func TestMain(m *testing.M) { vh.Main(m, rec) }
 
 type Conn struct {
 	Closer  string `json:"closer"` // client | server
-	Mode    string `json:"mode"`   // clean | dirty | dirty-quiet | both
+	Mode    string `json:"mode"`   // clean | dirty | dirty-quiet | both | target-down
 	ToFar   int    `json:"closer_to_far_bytes"`
 	ToClose int    `json:"far_to_closer_bytes"`
 	StartMs int    `json:"start_ms"`
@@ -44,7 +44,7 @@ func genCase(t *rapid.T) Case {
 	for i := 0; i < n; i++ {
 		c.Conns = append(c.Conns, Conn{
 			Closer:  rapid.SampledFrom([]string{"client", "server"}).Draw(t, "closer"),
-			Mode:    rapid.SampledFrom([]string{"clean", "clean", "clean", "dirty", "dirty-quiet", "both"}).Draw(t, "mode"),
+			Mode:    rapid.SampledFrom([]string{"clean", "clean", "clean", "dirty", "dirty-quiet", "both", "target-down"}).Draw(t, "mode"),
 			ToFar:   rapid.SampledFrom([]int{0, 1, 100, 1024, 1025, 50000, 200000}).Draw(t, "toFar"),
 			ToClose: rapid.SampledFrom([]int{0, 1, 100, 1024, 50000}).Draw(t, "toCloser"),
 			StartMs: rapid.SampledFrom([]int{0, 0, 1, 5, 20}).Draw(t, "start"),
@@ -56,6 +56,8 @@ func genCase(t *rapid.T) Case {
 type rig struct {
 	ln     net.Listener
 	bridge *vh.Bridge
+	down   *vh.Bridge // a second bridge whose target port is closed
+	baseD  [2]int
 	mu     sync.Mutex
 	wait   map[string]chan net.Conn
 	base   [2]int
@@ -115,8 +117,13 @@ func getRig(t vh.TB) *rig {
 	if err != nil {
 		t.Fatalf("INFRA: cannot start bridge: %v", err)
 	}
+	r.down, err = vh.StartBridge(vh.FreePort())
+	if err != nil {
+		t.Fatalf("INFRA: cannot start the second bridge: %v", err)
+	}
 	time.Sleep(100 * time.Millisecond)
 	r.base = [2]int{fdCount(r.bridge.Front), fdCount(r.bridge.Back)}
+	r.baseD = [2]int{fdCount(r.down.Front), fdCount(r.down.Back)}
 	theRig = r
 	return r
 }
@@ -126,6 +133,7 @@ func closeRig() {
 	defer rigMu.Unlock()
 	if theRig != nil {
 		theRig.bridge.Stop()
+		theRig.down.Stop()
 		theRig.ln.Close()
 		theRig = nil
 	}
@@ -167,6 +175,19 @@ func runConn(r *rig, i int, cn Conn) (err error, timedOut bool) {
 		delete(r.wait, id)
 		r.mu.Unlock()
 	}()
+	if cn.Mode == "target-down" {
+		// the far endpoint does not exist: the client must see end-of-stream, and nothing may stay behind
+		cl, e := net.DialTimeout("tcp", r.down.FrontAddr, 10*time.Second)
+		if e != nil {
+			return fmt.Errorf("connection %d: cannot connect to the bridge frontend: %v", i, e), false
+		}
+		defer cl.Close()
+		cl.Write(vh.Payload(id, cn.ToFar))
+		if _, ended, _ := readUntilEOS(cl, eosBound); !ended {
+			return fmt.Errorf("connection %d: the bridge target is unreachable and the client saw no end-of-stream within %v", i, eosBound), true
+		}
+		return nil, false
+	}
 	cl, e := net.DialTimeout("tcp", r.bridge.FrontAddr, 10*time.Second)
 	if e != nil {
 		return fmt.Errorf("connection %d: cannot connect to the bridge frontend: %v", i, e), false
@@ -275,7 +296,7 @@ func runCase(t vh.TB, c *Case) vh.Outcome {
 	for i := range c.Conns {
 		i := i
 		cn := c.Conns[i]
-		if (cn.Mode == "clean" && cn.ToFar > 0 && cn.ToClose > 0) || cn.Mode == "dirty" || cn.Mode == "dirty-quiet" {
+		if (cn.Mode == "clean" && cn.ToFar > 0 && cn.ToClose > 0) || cn.Mode == "dirty" || cn.Mode == "dirty-quiet" || cn.Mode == "target-down" {
 			o.NonTrivial = true
 		}
 		o.Classes = append(o.Classes, cn.Mode+"-close-by-"+cn.Closer)
@@ -304,8 +325,15 @@ func runCase(t vh.TB, c *Case) vh.Outcome {
 	var f, b int
 	for {
 		f, b = fdCount(r.bridge.Front), fdCount(r.bridge.Back)
-		if (f <= r.base[0] && b <= r.base[1]) || f < 0 || b < 0 {
+		fd, bd := fdCount(r.down.Front), fdCount(r.down.Back)
+		if f < 0 || b < 0 || fd < 0 || bd < 0 {
 			return o
+		}
+		if f <= r.base[0] && b <= r.base[1] && fd <= r.baseD[0] && bd <= r.baseD[1] {
+			return o
+		}
+		if f <= r.base[0] && b <= r.base[1] {
+			f, b = fd, bd // report the bridge whose target is down
 		}
 		if time.Now().After(deadline) {
 			break
